@@ -886,7 +886,7 @@ def defaults_check(run, binp, tr_ok):
     n = 0
     census = json.load(open(os.path.join(TMPDIR, "defaults_census.json"))) if tr_ok else {"table": [], "problems": []}
     try:
-        (pv,) = vlib.coq_eval("c15_defaults", "From PV Require Import Config.Defaults.", ["pinned_defaults"], shard=1)
+        (pv,) = vlib.coq_eval("c15_defaults", "From PV Require Import Config.Defaults.\nFrom Coq Require Import ZArith List Bool. Import ListNotations. Open Scope Z_scope.", ["pinned_defaults"], shard=1)
         pinned = {bstr(k): dval(v) for k, v in vlib.parse_coq(pv)}
     except Exception as ex:          # Defaults.v itself does not build
         run.broken.append("Config/Defaults.v cannot be evaluated: %s" % str(ex)[-300:])
